@@ -525,12 +525,12 @@ class Builder:
             text = '#MAP' + self.params([(kt, kk)], 1, cx) + '(' + ','.join([str(dflt)] + ['%d:%d' % p for p in pairs]) + ')'
             return text, (dict(pairs).get(kv, dflt) if live else None), 'atom'
         if tag == 'sumx':
-            self.note('#FOR')
             a = abs(int(node[1])) % 1000
             n = abs(int(node[2])) % 5
             var = LOOPVARS[cx.loops % len(LOOPVARS)]
             if cx.loops >= len(LOOPVARS):
                 return self.e(['num', a, 0], cx)
+            self.note('#FOR')
             text = '(#FOR(%d,%d)(%s,%s,+))' % (a, a + n, var, var)     # expands to "a+...+b": parenthesised
             return text, (sum(range(a, a + n + 1)) if live else None), 'atom'
         if tag == 'callx':
@@ -843,9 +843,9 @@ class Builder:
     # #FOR --------------------------------------------------------------------
     def t_for(self, node, cx):
         _, a, b, step, flags, body, sep, fsep, pf, sf = node
-        self.note('#FOR')
         if cx.loops >= len(LOOPVARS):
             return FALLBACK_LIT, FALLBACK_LIT
+        self.note('#FOR')
         var = LOOPVARS[cx.loops]
         pc = cx.deeper()
         ta, va, ka = self.e(a, pc)
@@ -923,9 +923,9 @@ class Builder:
     # #FOREACH ----------------------------------------------------------------
     def t_foreach(self, node, cx):
         _, items, body, sep, fsep, sf1, sf2 = node
-        self.note('#FOREACH')
         if cx.loops >= len(LOOPVARS):
             return FALLBACK_LIT, FALLBACK_LIT
+        self.note('#FOREACH')
         var = LOOPVARS[cx.loops]
         values = [re.sub(r'[^A-Za-z0-9]', '', self.lit(s, cx)) for s in items][:5] or ['a']
         if len(values) == 1 and (values[0] == '' or values[0].startswith(('EREF', 'REF', 'ENTRY', 'POKE'))):
@@ -962,9 +962,9 @@ class Builder:
     # #WHILE ------------------------------------------------------------------
     def t_while(self, node, cx):
         _, count, body, style, sf = node
-        self.note('#WHILE')
         if cx.whiles >= len(WHILEVARS):
             return FALLBACK_LIT, FALLBACK_LIT
+        self.note('#WHILE')
         w = WHILEVARS[cx.whiles]
         count = abs(int(count)) % 4
         fw = self.field(w, cx)
@@ -1253,10 +1253,10 @@ class Builder:
         return '#SPACE' + ptext + g, (SP * v + g if cx.live else None)
 
     def t_pc(self, node, cx):
-        self.note('#PC')
         g = self.guard(node[1])
         if self.pc is None:
             return FALLBACK_LIT, FALLBACK_LIT
+        self.note('#PC')
         return '#PC' + g, str(self.pc) + g
 
     # #POKES / #PUSHS / #POPS ---------------------------------------------------------
@@ -1327,9 +1327,12 @@ class Builder:
     def t_snap(self, node, cx):
         _, name, body, g = node
         t1, v1 = self.t_pushs(['pushs', name, g], cx)
-        sa = self.scope.copy()
-        tb, vb = self.t(body, cx.deeper())
-        self.scope = sa
+        if cx.nested or cx.env:
+            sa = self.scope.copy()
+            tb, vb = self.t(body, cx.deeper())
+            self.scope = sa
+        else:
+            tb, vb = self.t(body, cx.but(depth=cx.depth + 1))     # still unconditional: definitions stay visible
         if cx.live and len(self.state.stack) < 1:
             raise OutOfDomain('unbalanced snapshot stack')
         t2, v2 = self.t_pops(['pops', g >> 2], cx)
@@ -1390,9 +1393,9 @@ class Builder:
     # #DEF and calls ----------------------------------------------------------
     def t_def(self, node, cx):
         _, i, flags, ipar, spar, body, sf = node
-        self.note('#DEF')
         if cx.nested or cx.env:
             return FALLBACK_LIT, FALLBACK_LIT
+        self.note('#DEF')
         name = MACROS[i % len(MACROS)]
         fl = 0 if flags is None else flags & 3
         if flags is None and name in self.scope.macros and 'def-redefine-noflags' not in self.allow:
